@@ -12,6 +12,14 @@ that adds a parameter, `class Tagged(Leaf, Generic[W])`; PEP 696 defaults includ
 instead of by its declared type shows), a target (`G[args]` or the bare class) and two argument tuples.  The world is realised by
 `exec` of generated source; the non-generic monomorphised copy is generated from the same description by substituting
 the arguments (harness-side substitution, written from the property statement, independent of the Lean model).
+Round 3: PEP 696 defaults x inheritance (shape `defaults-inherit`: `class G(B[<closed>, U], Generic[U])` over `class B(Generic[T, U])`
+with defaults on a suffix of B's parameters, optionally a third level; arguments different from the defaults, equal to them,
+trailing ones left out, the bare class; Lean: `C17_defaults_inert_when_bound`, regression witness `C17_default_override_witness`)
+and SPELLINGS of the type arguments (`SPELLED_ARGS`: PEP 604 unions -- which the generators name after `str(arg)` -- of scalars,
+classes, builtin generics with one / two / nested arguments; `Literal[...]` leaves (`LITERALS`: strings, negative numbers,
+several values, enum members); `Annotated[...]` with several / non-identifier metadata and around parametrised types), in the
+random argument generator and as the systematic families `systematic-defaults-inherit` / `systematic-arg-spelling`
+(Lean: `C17_names_identifier`).
 
 Oracle P (implementation only): `structure` / `unstructure` of `G[args]` — on ONE converter shared by both
 parametrisations and on fresh ones, detailed validation on and off, valid and mutated payloads — give exactly the
@@ -283,7 +291,7 @@ def expand_aliases(a):
 
 PRELUDE = """
 from typing import *
-import typing, typing_extensions, attrs, dataclasses
+import typing, typing_extensions, attrs, dataclasses, enum
 from typing_extensions import Self, NotRequired
 from attrs import define
 from dataclasses import dataclass
@@ -302,6 +310,23 @@ CONVERTERS = {"tag": "_ktag", "id": "_kid"}
 
 BUILTIN_LEAVES = {"int": "int", "str": "str", "float": "float", "bool": "bool", "None": "None", "...": "..."}
 
+# `Literal[...]` types are leaves of the annotation language (closed, without type arguments): name -> valid raw payloads.
+# Their reprs contain quotes, `-`, `<`, `:` -- characters the function-name sanitiser of the generators does not rewrite.
+LITERALS = {
+    "Literal['a']": ["a"],
+    "Literal[-1]": [-1],
+    "Literal[1, 2]": [1, 2],
+    "Literal['x', 'y-z']": ["x", "y-z"],
+    "Literal[Col.R]": ["r"],
+    "Literal[Col.R, Col.G]": ["r", "g"],
+}
+
+
+def literal_name(t):
+    """canonical leaf name of a real `Literal[...]` object (enum members are written `Col.<member>`)"""
+    import enum
+    return "Literal[%s]" % ", ".join("Col.%s" % a.name if isinstance(a, enum.Enum) else repr(a) for a in typing.get_args(t))
+
 
 def src(a, names):
     """Python source of an annotation; `names` maps leaf/constructor names to identifiers in the exec namespace"""
@@ -309,6 +334,8 @@ def src(a, names):
     if k == "tv":
         return a[1]
     if k == "lf":
+        if a[1].startswith("Literal["):
+            return a[1].replace("Col.", names["Col"] + ".")
         return BUILTIN_LEAVES.get(a[1]) or names[a[1]]
     if k == "self":
         return "Self"
@@ -389,6 +416,7 @@ class World:
         self.names["Leaf"] = "Leaf" + sfx
         self.names["In"] = "In" + sfx
         self.names["T!cls"] = "TCls" + sfx
+        self.names["Col"] = "Col" + sfx
         for al in ALIASES:
             self.names[al] = al + sfx
         for i, lv in enumerate(spec["levels"]):
@@ -399,6 +427,7 @@ class World:
                 lines.append("%s = typing_extensions.TypeVar(%r, default=%s)" % (n, n, src(dflts[n], self.names)))
             else:
                 lines.append("%s = TypeVar(%r)" % (n, n))
+        lines.append("class Col%s(enum.Enum):\n    R = 'r'\n    G = 'g'\n" % sfx)
         lines.append("@define\nclass Leaf%s:\n    v: int\n" % sfx)
         lines.append("@define\nclass In%s(Generic[T]):\n    v: T\n" % sfx)
         lines.append("TCls%s = attrs.make_class('T', {'v': attrs.field(type=int)})" % sfx)
@@ -479,6 +508,8 @@ class World:
         if type(t) is typing._AnnotatedAlias:
             return ["ann", self.canon(t.__origin__), [str(m) for m in t.__metadata__]]
         origin = typing.get_origin(t)
+        if origin is typing.Literal:
+            return ["lf", literal_name(t)]
         if origin is not None:
             if origin is typing.Union:
                 c = "Union"
@@ -604,6 +635,8 @@ def gen_closed_arg(rng, depth=1):
     r = rng.random()
     if r < 0.5 or depth <= 0:
         return LF(rng.choice(SCALARS))
+    if rng.random() < 0.3:
+        return spelled_arg(rng)[1]
     r = rng.random()
     if r < 0.12:
         return LF("NT")   # a NewType with registered hooks: declared-type dispatch != run-time dispatch
@@ -622,6 +655,41 @@ def gen_closed_arg(rng, depth=1):
     if r < 0.93:
         return APP("tuple", LF("int"), LF("str"))
     return LF("T!cls")
+
+
+# PEP 604 unions (`types.UnionType`: no `__name__`, the generators name their functions after `str(arg)`), among them
+# unions whose member is a builtin generic with two or more arguments; `Literal[...]`; `Annotated[...]` with several /
+# non-identifier metadata and around a parametrised type
+SPELLED_ARGS = [
+    ("pep604-scalar", lambda rng: PU(LF(rng.choice(SCALARS)), LF("None"))),
+    ("pep604-list", lambda rng: PU(APP("list", LF(rng.choice(SCALARS))), LF("None"))),
+    ("pep604-dict", lambda rng: PU(APP("dict", LF("str"), LF(rng.choice(SCALARS))), LF("None"))),
+    ("pep604-tuple2", lambda rng: PU(APP("tuple", LF("int"), LF(rng.choice(["float", "str"]))), LF("None"))),
+    ("pep604-tuple-var", lambda rng: PU(APP("tuple", LF("int"), LF("...")), LF("None"))),
+    ("pep604-dict-list", lambda rng: PU(APP("dict", LF("str"), APP("list", LF("int"))), LF("None"))),
+    ("pep604-none-first", lambda rng: PU(LF("None"), APP("dict", LF("str"), LF("int")))),
+    ("pep604-class", lambda rng: PU(LF("Leaf"), LF("None"))),
+    ("literal", lambda rng: LF(rng.choice(sorted(LITERALS)))),
+    ("literal", lambda rng: LF(rng.choice(sorted(LITERALS)))),
+    ("annotated-meta2", lambda rng: ANN(LF(rng.choice(SCALARS)), "a-b", "c d")),
+    ("annotated-generic", lambda rng: ANN(APP("list", LF("int")), "x y")),
+    ("annotated-dict", lambda rng: ANN(APP("dict", LF("str"), LF("int")), "m")),
+    ("dict-of-tuple", lambda rng: APP("dict", LF("str"), APP("tuple", LF("int"), LF("float")))),
+]
+
+
+def spelled_arg(rng):
+    name, f = rng.choice(SPELLED_ARGS)
+    return name, f(rng)
+
+
+def gen_base_arg(rng):
+    """a closed argument for a parameter of a parametrised BASE: biased towards types whose declared-type hook differs from
+    run-time dispatch on the stored value (the NewType `NT` with registered hooks, bare and inside containers) -- an
+    inherited field bound through the base must use the hook of the declared argument, on the unstructure side too"""
+    if rng.random() < 0.3:
+        return rng.choice([LF("NT"), LF("NT"), APP("list", LF("NT")), OPT(LF("NT")), APP("dict", LF("str"), LF("NT"))])
+    return gen_closed_arg(rng)
 
 
 def occurrence(rng, v, allow_self=False, pep604_bad=False):
@@ -674,7 +742,7 @@ def occurrence(rng, v, allow_self=False, pep604_bad=False):
 SHAPES = [
     # (name, weight)
     ("single", 40), ("inherit-closed", 12), ("inherit-pass", 10), ("inherit-mixed", 12), ("chain3-pass", 6),
-    ("defaults", 6), ("self-nongeneric", 4), ("plain-sub", 6), ("generic-over-plain", 6),
+    ("defaults", 6), ("defaults-inherit", 8), ("self-nongeneric", 4), ("plain-sub", 6), ("generic-over-plain", 6),
     ("F27-pep604", 5), ("F28-renamed", 3), ("F28-capture", 2), ("F28-composed", 2), ("F28-deep", 2), ("F29-self", 4),
 ]
 
@@ -689,8 +757,8 @@ def gen_spec(rng, shape=None):
                 break
     kind = rng.choice(["attrs", "attrs", "dataclass", "typeddict"])
     style = rng.choice(["generic", "generic", "pep695"])
-    if shape == "defaults":
-        style = "generic"
+    if shape in ("defaults", "defaults-inherit"):
+        style = "generic"   # (PEP 696 defaults in PEP 695 syntax need Python 3.13)
     fcount = [0]
 
     def fields(params, n=None, allow_self=False, bad=False):
@@ -743,17 +811,42 @@ def gen_spec(rng, shape=None):
         levels = [level("G", P, own, defaults=dfl)]
         if len(dfl) == len(P) and rng.random() < 0.6:
             target = "bare"
+    elif shape == "defaults-inherit":
+        # PEP 696 defaults x inheritance: `class G(B[<closed>, U], Generic[U])` over `class B(Generic[T, U])`, a suffix of B's
+        # parameters has defaults; G hands a subset of B's parameters on under the same names and binds the others to
+        # closed types; optionally a third class `H(G[U], Generic[U])` handing everything on.  An explicit argument must
+        # win over the default at every level; the default applies only where no argument is given.
+        BP = ["T", "U", "V"][:max(2, nparams)]
+        ndef = rng.randint(1, len(BP))
+        dchoice = SCALARS + (["NT"] if kind == "typeddict" else ["None", "NT"])
+        dfl = {p: LF(rng.choice(dchoice)) for p in BP[len(BP) - ndef:]}
+        passed = [p for p in BP if rng.random() < 0.6]
+        if not any(p in dfl for p in passed):
+            passed = sorted(set(passed) | {BP[-1]}, key=BP.index)
+        bown, occ = fields(BP)
+        cown, occ2 = fields(passed)
+        occ += occ2 + ["defaults-inherit"]
+        levels = [level("G", passed, cown, [TV(p) if p in passed else gen_base_arg(rng) for p in BP],
+                        defaults={p: d for p, d in dfl.items() if p in passed}),
+                  level("B", BP, bown, defaults=dfl)]
+        if passed == BP and rng.random() < 0.5:
+            # (a third level above a class that binds a base parameter to a closed type is the recorded shape F28 "deep")
+            hown, occ3 = fields(passed)
+            occ += occ3 + ["defaults-inherit-chain3"]
+            levels.insert(0, level("H", passed, hown, [TV(p) for p in passed],
+                                   defaults={p: d for p, d in dfl.items() if p in passed}))
+        P = passed
     elif shape in ("inherit-closed", "self-nongeneric"):
         bown, occ = fields(P, allow_self=(shape == "self-nongeneric"))
         cown, occ2 = fields([], n=rng.randint(0, 2), allow_self=(shape == "self-nongeneric"))
         occ += occ2 + ["inherited-closed"]
-        levels = [level("C", [], cown, [gen_closed_arg(rng) for _ in P], generic_base=False), level("B", P, bown)]
+        levels = [level("C", [], cown, [gen_base_arg(rng) for _ in P], generic_base=False), level("B", P, bown)]
         target = "bare"
     elif shape in ("plain-sub", "generic-over-plain"):
         # Node(Generic[P]) <- Mid(Node[closed args]) <- 1-2 plain subclasses [<- Tagged(<plain>, Generic[W])]
         bown, occ = fields(P)
         mown, occ2 = fields([], n=rng.randint(0, 2))
-        levels = [level("Mid", [], mown, [gen_closed_arg(rng) for _ in P], generic_base=False), level("B", P, bown)]
+        levels = [level("Mid", [], mown, [gen_base_arg(rng) for _ in P], generic_base=False), level("B", P, bown)]
         for k in range(rng.choice([1, 1, 2])):
             pown, _ = fields([], n=rng.randint(0, 1) or (1 if rng.random() < 0.5 else 0))
             levels.insert(0, level("Leaf%d" % k, [], pown, [], generic_base=False))
@@ -776,7 +869,7 @@ def gen_spec(rng, shape=None):
         bown, occ = fields(["T", "W"])
         cown, occ2 = fields(["T"])
         occ += occ2 + ["inherited-mixed"]
-        levels = [level("G", ["T"], cown, [TV("T"), gen_closed_arg(rng)]), level("B", ["T", "W"], bown)]
+        levels = [level("G", ["T"], cown, [TV("T"), gen_base_arg(rng)]), level("B", ["T", "W"], bown)]
         P = ["T"]
     elif shape == "chain3-pass":
         a, o1 = fields(P)
@@ -837,6 +930,26 @@ def gen_spec(rng, shape=None):
     if shape == "defaults" and target == "alias" and rng.random() < 0.5:
         # leave the defaulted trailing parameter out: typing fills the default in
         argsets = [a[:len(a) - 1] if len(levels[0]["defaults"]) == 1 else a for a in argsets]
+    if shape == "defaults-inherit":
+        hd = levels[0]
+        # first tuple: every defaulted parameter gets an argument DIFFERENT from its default
+        for i, p in enumerate(hd["params"]):
+            if p in hd["defaults"] and json.dumps(argsets[0][i]) == json.dumps(hd["defaults"][p]):
+                argsets[0][i] = LF("str") if hd["defaults"][p] != LF("str") else LF("float")
+        # second tuple: equal to the defaults / trailing defaulted parameters left out (typing fills them in) / other arguments
+        ntrail = 0
+        while ntrail < len(hd["params"]) and hd["params"][len(hd["params"]) - 1 - ntrail] in hd["defaults"]:
+            ntrail += 1
+        how = rng.choice(["equal", "omit", "other"])
+        if how == "equal":
+            # (never `None` as an explicit argument: typing turns it into `NoneType`, for which cattrs has no structure hook,
+            # while a field of the copy annotated `None` counts as untyped -- not about type parameters)
+            argsets[1] = [a if hd["defaults"].get(p, a) == LF("None") else hd["defaults"].get(p, a) for p, a in zip(hd["params"], argsets[1])]
+        elif how == "omit" and 0 < ntrail < len(hd["params"]):
+            argsets[1] = argsets[1][:len(argsets[1]) - rng.randint(1, ntrail)]
+        occ.append("defaults-inherit-second:" + how)
+        if ntrail == len(hd["params"]) and rng.random() < 0.3:
+            target = "bare"
     return {"shape": shape, "kind": kind, "style": style, "levels": levels, "target": target,
             "argsets": argsets if target == "alias" else [None], "occ": occ}
 
@@ -862,6 +975,8 @@ def payload(rng, a, W, depth=0, self_fields=None, none_ok=True, minimal=False):
             return None
         if n in ("Leaf", "T!cls"):
             return {"v": rng.choice([1, "2", 3])}
+        if n in LITERALS:
+            return rng.choice(LITERALS[n])
         raise ValueError(a)
     if k == "ann":
         return rec(a[1], depth)
@@ -1855,6 +1970,40 @@ def systematic_worlds():
             out.append({"shape": "systematic-defaults", "kind": kind, "style": "generic", "target": "bare", "occ": ["default:" + json.dumps(dv)],
                         "levels": [_lv("D", ["T", "U"], own, defaults={"T": LF("str"), "U": dv})],
                         "argsets": [None]})
+    # a class with parameters of its own over a base bound to a CLOSED type whose hook differs from run-time dispatch:
+    # `class Child(Base[NT, U], Generic[U])` -- the inherited fields `a: T`, `b: list[T]`, `c: Optional[T]` are un/structured
+    # by NT's hooks whichever way `Child[args]` reaches the generators
+    for kind in ("attrs", "dataclass", "typeddict"):
+        for style in ("generic", "pep695"):
+            child = _lv("Child", ["U"], [("d", APP("list", TV("U")))], [LF("NT"), TV("U")])
+            base = _lv("Base", ["T", "U"], [("a", TV("T")), ("b", APP("list", TV("T"))), ("c", OPT(TV("T"))), ("u", TV("U"))])
+            out.append({"shape": "systematic-closed-base", "kind": kind, "style": style, "target": "alias",
+                        "occ": ["inherited-mixed"], "levels": [child, base], "argsets": [[LF("str")], [LF("NT")]]})
+    # PEP 696 x inheritance (Lean: `C17_defaults_inert_when_bound`, regression witness `C17_default_override_witness`):
+    # `class Child(Base[str, U], Generic[U])` over `class Base(Generic[T, U])`, U defaulting to int -- an explicit
+    # argument (`Child[float]`) wins over the default for inherited and own fields alike; `Child[int]`, `Child` use it
+    for kind in ("attrs", "dataclass", "typeddict"):
+        for tgt in ("alias", "bare"):
+            child = _lv("Child", ["U"], [("z", OPT(TV("U")))], [LF("str"), TV("U")], defaults={"U": LF("int")})
+            base = _lv("Base", ["T", "U"], [("x", TV("T")), ("y", TV("U")), ("ys", APP("list", TV("U")))], defaults={"U": LF("int")})
+            out.append({"shape": "systematic-defaults-inherit", "kind": kind, "style": "generic", "target": tgt,
+                        "occ": ["defaults-inherit"], "levels": [child, base],
+                        "argsets": [[LF("float")], [LF("int")]] if tgt == "alias" else [None]})
+    # spellings of the type ARGUMENTS: PEP 604 unions (named after `str(arg)` by the generators) with multi-argument
+    # builtin generics as members, Literal, Annotated -- one- and two-parameter classes of every kind
+    import random
+    fixed = random.Random(17)   # (a fixed choice of the scalars inside the spellings: the list is the same in every run)
+    spelled = [f(fixed) for n, f in SPELLED_ARGS if n not in ("pep604-scalar", "pep604-list", "pep604-tuple2", "literal", "annotated-meta2")]
+    spelled += [PU(LF("int"), LF("None")), PU(APP("list", LF("int")), LF("None")), PU(APP("tuple", LF("int"), LF("float")), LF("None")),
+                ANN(LF("int"), "a-b", "c d")] + [LF(n) for n in sorted(LITERALS)]
+    for kind in ("attrs", "dataclass", "typeddict"):
+        for i in range(0, len(spelled) - 1, 2):
+            one = _lv("G", ["T"], [("a", TV("T")), ("b", APP("List", TV("T")))])
+            two = _lv("D", ["K", "T"], [("k", TV("K")), ("v", APP("dict", LF("str"), TV("T")))])
+            out.append({"shape": "systematic-arg-spelling", "kind": kind, "style": "generic" if i % 4 else "pep695", "target": "alias",
+                        "occ": ["arg-spelling"], "levels": [one], "argsets": [[spelled[i]], [spelled[i + 1]]]})
+            out.append({"shape": "systematic-arg-spelling", "kind": kind, "style": "generic", "target": "alias",
+                        "occ": ["arg-spelling"], "levels": [two], "argsets": [[LF("str"), spelled[i + 1]], [spelled[i], LF("int")]]})
     return out
 
 
